@@ -14,7 +14,8 @@ STD_ASSUMPTIONS = {
     "A2": "A2: machine arithmetic treated as mathematical (reals for floats, unbounded integers)",
     "A3": "A3: a concrete float met by the symbolic run denotes the simplest rational within relative 2^-50 of it",
     "A4": "A4: Python-subset semantics of the VC generator and NumPy indexing axioms; NumPy broadcasting/reductions behave on object arrays as on float arrays",
-    "A8": "A8: z3 / the normal-form prover are correct",
+    "A8": "A8: z3 / the normal-form prover are correct (every z3 'unsat' used as a proof or to prune a region is re-submitted to cvc5 and, "
+          "failing that, to the separately built z3 4.8; counts under coverage.solver_cross_check, a disagreement leaves the obligation undecided)",
     "A9": "A9: the specification functions in /verif/specs render the property statement faithfully",
 }
 
@@ -170,6 +171,22 @@ class Ledger:
             "samples": self.samples[:8] if self.samples else [o.to_json() for o in self.obs[:3]],
             "notes": self.notes,
         }
+        from . import xcheck
+        xc = xcheck.summarise(self.obs)
+        for o in self.obs:
+            st = (o.detail or {}).get("stats") or {}
+            for k, v in st.items():
+                if k == "xcheck_time":
+                    xc["path_pruning_time_s"] = round(xc.get("path_pruning_time_s", 0.0) + v, 2)
+                elif k in ("xcheck_skipped", "xcheck_disabled"):
+                    xc["path pruning: not asked (time budget)"] = xc.get("path pruning: not asked (time budget)", 0) + v
+                elif k.startswith("xcheck_"):
+                    xc["asked"] += v
+                    kk = {"xcheck_agree": "agree (path pruning)", "xcheck_open": "open", "xcheck_disagree": "disagree"}.get(k, k)
+                    xc[kk] = xc.get(kk, 0) + v
+        xc["enabled"] = xcheck.ENABLED
+        xc["solvers"] = "cvc5 (/usr/bin/cvc5), then z3 4.8 (/usr/bin/z3), on the SMT-LIB dump of the assertion stack z3 5.1 found unsat"
+        cov["solver_cross_check"] = xc
         if explanation:
             cov["explanation"] = explanation
         cov.update(self.extra)
